@@ -24,7 +24,7 @@ func init() { fw.Register(c08{}) }
 func (c08) ID() string    { return "C08" }
 func (c08) Level() string { return "exploration" }
 func (c08) Rule() string {
-	return "unit = (history, configuration, batch index): the same history of successful batches runs on five primaries - file + unlimited shared cache (with index caches released at random moments), file + tiny cache limit (evicts on every access), file + cache disabled, in-memory back end with unlimited cache, in-memory back end with the cache disabled (every record read back through the memory bucket); after EVERY batch a battery of ~30 requests (_id reads of live/deleted ids, filter operators, text, flat, vamana with and without pre-filters, composites; select *) is answered by each primary and by a cold instance freshly opened on a byte copy of each file. Oracle: tie-aware answer equality warm vs cold on the same file for every request; equality across configurations and back ends (and with the model) for the deterministic indexes (filters, _id, text, flat without quantiser or with a fixed binary threshold). Non-trivial = the batch changed an index that has a cache (vector fields); distinct by (script hash, configuration, batch index)."
+	return "unit = (history, configuration, batch index): the same history of successful batches runs on five primaries - file + unlimited shared cache (with index caches released at random moments), file + tiny cache limit (evicts on every access), file + cache disabled, in-memory back end with unlimited cache, in-memory back end with the cache disabled (every record read back through the memory bucket); after EVERY batch a battery of ~30 requests (_id reads of live/deleted ids, filter operators, text, flat, vamana with and without pre-filters, composites; select *) is answered by each primary and by a cold instance freshly opened on a byte copy of each file; before every delete batch the first primary's file is also copied and the copy receives the same batch with the cache disabled (fork): same bytes, same batch, different cache state while the batch runs. Oracle: tie-aware answer equality warm vs cold on the same file for every request, and between the primary and its fork for every request (graph answers included); equality across configurations and back ends (and with the model) for the deterministic indexes (filters, _id, text, flat without quantiser or with a fixed binary threshold). Non-trivial = the batch changed an index that has a cache (vector fields); distinct by (script hash, configuration, batch index)."
 }
 func (c08) Assumptions() []string {
 	return []string{"graph answers are compared only between instances that share a file (random entry vector, concurrent insert order and k-means seeding legitimately differ across files)", "process death is out of scope here (C07); durability = close/reopen of a byte copy taken after the call returned", "fsync ordering / power loss is out of reach of runtime monitoring"}
@@ -496,8 +496,30 @@ func (c08) RunCase(c fw.Case, env *fw.Env) *fw.CaseResult {
 		if op.Kind == gen.OpDelete && len(op.Ids) > 0 {
 			touchesVector = true
 		}
+		// Fork: before a batch that deletes points (updates re-insert vectors with concurrent workers, whose
+		// outcome legitimately differs from run to run), the first primary's file is
+		// copied. The copy is opened with the cache DISABLED and receives the same batch. Both
+		// instances then hold the same committed history on the same bytes - they differ only in
+		// what was cached while the batch ran - so every answer must agree, graph answers included.
+		var fork *sx.Sx
+		forkPath := ""
+		if op.Kind == gen.OpDelete && op.Size() > 0 && !pq {
+			forkPath = fmt.Sprintf("%s.fork%d", prims[0].s.Path, step)
+			if err := sx.CopyFile(prims[0].s.Path, forkPath); err == nil {
+				if f, err := sx.Open(forkPath, schema, cache.NewManager(0), 0); err == nil {
+					fork = f
+				}
+			}
+		}
 		var out opOutcome
 		pre := m.Clone()
+		if fork != nil {
+			scratch := pre.Clone()
+			if ok, _ := applyOp(res, "C08:fork-cold", fork, scratch, op, step); !ok {
+				fork.Close()
+				return res
+			}
+		}
 		for i, p := range prims {
 			scratch := pre.Clone()
 			ok, o := applyOp(res, "C08:"+p.name, p.s, scratch, op, step)
@@ -549,6 +571,18 @@ func (c08) RunCase(c fw.Case, env *fw.Env) *fw.CaseResult {
 			}
 		}
 		scriptHash := fw.Hash64(script)
+		if fork != nil {
+			for j, b := range battery {
+				hits, err := fork.Search(b.req)
+				res.Stat("fork_comparisons", 1)
+				if diff := sameAnswer(answers[0][j], answer{hits, err}, !b.filterOnly); diff != "" {
+					res.Violate("config-dependence", "C08:fork-warm-vs-cold-batch:"+leafKinds(b.req.Query), fmt.Sprintf("step %d (after %s): the same file received the same batch once on the running instance (warm unlimited cache) and once on a copy opened with the cache disabled; request %s is answered differently: %s", step, op.Tag, b.desc, diff), nil)
+					break
+				}
+			}
+			fork.Close()
+			os.Remove(forkPath)
+		}
 		for i, p := range prims {
 			res.Eval(touchesVector, scriptHash, p.name, step)
 			// no request may fail
